@@ -103,6 +103,7 @@ def cf_specs(draw, tier):
         "band_indices": draw(st.sampled_from(["none", "none", "subset", "reordered", "nested"])),
         "lang": draw(st.sampled_from(["C", "Py"])),
         "tlayout": draw(st.sampled_from(["array", "array", "list", "strided", "column", "float32ish"])),
+        "torder": draw(st.sampled_from(["zero_first", "zero_first", "descending", "zero_inside", "with_duplicates"])),
         "logx": draw(st.lists(st.floats(-8, 4, allow_nan=False), min_size=1, max_size=5)),
         "T_plain": draw(st.lists(st.floats(1.0, 5000.0, allow_nan=False), min_size=0, max_size=3)),
     }
@@ -134,7 +135,15 @@ def _temps(spec, f):
     for lx in spec["logx"]:
         Ts.append(nu0 * THzToEv / Kb / 10 ** lx)  # T such that h nu0 / kT = 10^lx
     Ts += list(spec["T_plain"])
-    return np.array([t for t in Ts if t == 0 or 1e-6 < t < 1e12], dtype="double")
+    Ts = [t for t in Ts if t == 0 or 1e-6 < t < 1e12]
+    order = spec.get("torder", "zero_first")
+    if order == "descending":
+        Ts = sorted(Ts, reverse=True)
+    elif order == "zero_inside" and len(Ts) >= 3:
+        Ts = Ts[1:2] + [0.0] + Ts[2:]
+    elif order == "with_duplicates":
+        Ts = Ts + [0.0] + Ts[-1:]
+    return np.array(Ts, dtype="double")
 
 
 def run_closed_form(spec):
@@ -217,7 +226,7 @@ def run_closed_form(spec):
         if abs(tp.zero_point_energy - ref0[0]) > 1e-10 * mag0[0] + 1e-300:
             return Out(ok=False, msg="zero_point_energy %r != sum over modes above the cutoff %r (cutoff %r)" % (tp.zero_point_energy, ref0[0], cut))
     distinct = len(set(np.round(fsel[fsel * THzToEv > cut_eff * THzToEv], 9).tolist()))
-    classes = ["tlayout:" + spec.get("tlayout", "array"), "lang:" + spec["lang"], "classical" if spec["classical"] else "quantum", "cutoff:" + spec["cutoff"],
+    classes = ["torder:" + spec.get("torder", "zero_first"), "tlayout:" + spec.get("tlayout", "array"), "lang:" + spec["lang"], "classical" if spec["classical"] else "quantum", "cutoff:" + spec["cutoff"],
                "bi:" + spec["band_indices"], "pretend" if spec["pretend_real"] else "asis",
                "x>709" if xmax > 709 else ("x>50" if xmax > 50 else "x<=50"), "tiny_mode" if spec.get("tiny") else "no_tiny_mode"]
     return Out(ok=True, nontrivial=distinct >= 2 and len(Ts) > 1, classes=classes, info={"tol_ratio": worst, "xmax": xmax})
